@@ -4,7 +4,8 @@ set -eu
 cd "$(dirname "$0")"
 export GOFLAGS=-mod=mod GOPROXY=off GOSUMDB=off GOTOOLCHAIN=local
 mkdir -p .build evidence replays
-( cd harness && go vet -tags verif ./... )
+python3 scripts/gen_winpath.py
+( cd harness && gofmt -w internal/winpath/winpath_gen.go && go test ./internal/winpath && go vet -tags verif ./... )
 ( cd harness && go build -tags verif -o ../.build/vcheck ./cmd/vcheck )
 ( cd harness && go build -tags verif,avfs_setostype -o ../.build/vcheck-os ./cmd/vcheck )
 ( cd harness && go build -race -tags verif -o ../.build/vcheck-race ./cmd/vcheck )
